@@ -64,25 +64,37 @@ Definition kApp := 1. Definition kType := 2. Definition kField := 3. Definition 
 Definition kEvent := 5. Definition kRestPath := 6. Definition kMethod := 7. Definition kText := 8.
 Definition kPlain := 9. Definition kBlock := 10. Definition kOneOf := 11. Definition kCase := 12.
 Definition kAnno := 13. Definition kNvp := 14. Definition kMod := 15. Definition kItem := 16.
+(* round 3: import statement, !enum, !alias, !union and its members, "| text" doc-string statement, endpoint /
+   event / method parameter (a field rule inside "(...)") *)
+Definition kImport := 17. Definition kEnum := 18. Definition kAlias := 19. Definition kUnion := 20.
+Definition kMember := 21. Definition kDoc := 22. Definition kParam := 23.
+(* the "..." body of an application: EnterSimple_endpoint makes an endpoint named "..." and returns before getSrcCtx *)
+Definition kHolder := 24.
+(* a query parameter of a REST method (EnterQuery_var): own context only *)
+Definition kQuery := 25.
 
 Definition mem (k : N) (l : list N) : bool := existsb (N.eqb k) l.
 
 (* rest_endpoint (a path) and one_of_cases record no context of their own *)
-Definition has_own (k : N) : bool := negb (mem k [kRestPath; kCase]).
+Definition has_own (k : N) : bool := negb (mem k [kRestPath; kCase; kHolder]).
 (* makeAttributeArray runs before the rule's own getSrcCtx: EnterName_with_attribs, EnterSimple_endpoint,
    EnterRest_endpoint, EnterMethod_def *)
-Definition attr_before (k : N) : bool := mem k [kApp; kEndpoint; kRestPath; kMethod].
+Definition attr_before (k : N) : bool := mem k [kApp; kEndpoint; kRestPath; kMethod; kAlias; kUnion].
 (* ... after it, before the body: EnterTable -> EnterTable_def, EnterField -> EnterField_type, EnterEvent *)
-Definition attr_after (k : N) : bool := mem k [kType; kField; kEvent].
+Definition attr_after (k : N) : bool := mem k [kType; kField; kEvent; kEnum; kParam].
 (* ... after the body: ExitStatements *)
 Definition attr_last (k : N) : bool := negb (attr_before k) && negb (attr_after k).
 (* End := lastEnd on exit: ExitApp_decl, ExitTable, ExitSimple_endpoint *)
 Definition fix_end (k : N) : bool := mem k [kApp; kType; kEndpoint].
 (* popScope on a statement scope: the LAST statement of the scope gets End := lastEnd *)
 Definition is_scope (k : N) : bool := mem k [kEndpoint; kEvent; kMethod; kBlock; kCase].
-Definition is_stmt (k : N) : bool := mem k [kText; kPlain; kBlock; kOneOf].
+Definition is_stmt (k : N) : bool := mem k [kText; kPlain; kBlock; kOneOf; kDoc].
+(* the End of the context is the one sourceCtxHelper.get computes from the rule's stop token and nothing overwrites it
+   later: no End := lastEnd on exit, not a statement (popScope may patch the last statement of a scope; the text
+   statement replaces the end column) *)
+Definition end_exact_kind (k : N) : bool := has_own k && negb (fix_end k) && negb (is_stmt k).
 
-Record entry := { ekey : N; ectx : ctx }.
+Record entry := { ekey : N; ekind : N; ectx : ctx }.
 Record wres := { w_pre : list entry; w_own : option entry; w_post : list entry; w_stmt : bool }.
 
 Definition opt_list {A} (o : option A) : list A := match o with Some a => [a] | None => [] end.
@@ -91,7 +103,7 @@ Definition flat (rs : list wres) : list entry := flat_map flat1 rs.
 
 Definition set_own_end (le : loc) (r : wres) : wres :=
   {| w_pre := w_pre r;
-     w_own := match w_own r with Some e => Some {| ekey := ekey e; ectx := set_cend le (ectx e) |} | None => None end;
+     w_own := match w_own r with Some e => Some {| ekey := ekey e; ekind := ekind e; ectx := set_cend le (ectx e) |} | None => None end;
      w_post := w_post r; w_stmt := w_stmt r |}.
 
 (* popScope: lastStatement() of the scope gets the current lastEnd *)
@@ -133,7 +145,7 @@ Fixpoint walk (file : N) (toks : list ptok) (n : pnode) (le : loc) {struct n} : 
       let own' := if fix_end k then set_cend le4 own else own in     (* Exit...: End = s.lastEnd *)
       let '(le5, post) := if attr_last k then wl attrs le4 else (le4, []) in   (* ExitStatements *)
       (le5, {| w_pre := flat pre;
-               w_own := if has_own k then Some {| ekey := key; ectx := own' |} else None;
+               w_own := if has_own k then Some {| ekey := key; ekind := k; ectx := own' |} else None;
                w_post := flat mid ++ flat krs' ++ flat post;
                w_stmt := is_stmt k |})
   end.
@@ -144,7 +156,28 @@ Definition walk_list (file : N) (toks : list ptok) : list pnode -> loc -> loc * 
 (* ---------- files and the module ---------- *)
 Record file := F { f_dl : N; f_lines : list line; f_forest : list pnode }.
 
-(* one listener walks the files in the order flattenSpecs gives them; lastEnd survives from file to file *)
+(* The position state of the listener that lives across the files of one compilation (parse.go parseSpecs, one
+   TreeShapeListener for all files): `sc`, a sourceCtxHelper VALUE whose only fields are the file name and the version
+   (Gen: helper_fields), and `lastEnd`. sourceCtxHelper.get reads the two fields and writes nothing (Gen:
+   get_receiver_writes, get_foreign_idents): a context depends on the current file name and the two tokens only, never
+   on a context handed out before. For every file parseSpecs assigns a FRESH literal `sourceCtxHelper{file, version}`
+   to listener.sc (Gen: sc_switch = FreshLiteral, inside the per-file loop) and touches nothing else of the position
+   state (Gen: parsespecs_listener_writes): lastEnd survives from file to file. *)
+Record helper := { h_file : N }.
+Record lstate := { l_sc : helper; l_lastEnd : loc }.
+Definition switch_file (st : lstate) (idx : N) : lstate :=
+  {| l_sc := {| h_file := idx |}; l_lastEnd := l_lastEnd st |}.
+
+(* one listener walks the files in the order flattenSpecs gives them *)
+Fixpoint compile_st (idx : N) (fs : list file) (st : lstate) : list entry :=
+  match fs with
+  | [] => []
+  | f :: r => let st1 := switch_file st idx in
+              let '(le1, rs) := walk_list (h_file (l_sc st1)) (positions (f_dl f) (f_lines f)) (f_forest f) (l_lastEnd st1) in
+              flat rs ++ compile_st (idx + 1) r {| l_sc := l_sc st1; l_lastEnd := le1 |}
+  end.
+
+(* the same with the state spelled out as its two components (the form the proofs use; compile_st_eq) *)
 Fixpoint compile_from (idx : N) (fs : list file) (le : loc) : list entry :=
   match fs with
   | [] => []
@@ -153,7 +186,8 @@ Fixpoint compile_from (idx : N) (fs : list file) (le : loc) : list entry :=
   end.
 
 Definition loc0 : loc := {| lline := 0; lcol := 0 |}.
-Definition compile (fs : list file) : list entry := compile_from 0 fs loc0.
+Definition st0 : lstate := {| l_sc := {| h_file := 0 |}; l_lastEnd := loc0 |}.
+Definition compile (fs : list file) : list entry := compile_st 0 fs st0.
 
 (* ---------- the order in which the files are compiled ---------- *)
 
@@ -164,8 +198,10 @@ Fixpoint flatten_from (fuel : nat) (g : list (list N)) (acc : list N) (i : N) : 
   match fuel with
   | O => acc
   | Datatypes.S fuel' =>
-      if mem i acc then acc
-      else fold_left (flatten_from fuel' g) (nth (N.to_nat i) g []) (acc ++ [i])
+      if mem i acc then acc                                   (* an element of specs has the same index: return *)
+      else if i <? N.of_nat (length g)                        (* fi, found := retrieved.l[index]; if found { ... } *)
+      then fold_left (flatten_from fuel' g) (nth (N.to_nat i) g []) (acc ++ [i])
+      else acc
   end.
 
 (* the recursion is at most one level deeper than there are files *)
